@@ -1,6 +1,7 @@
 """Shared runner for the data-path properties (C01-C04, C07, C16, C19): proof step,
 M2 correspondence on selected observables, direct property tests, verdicts."""
 import json
+import sys
 
 import numpy as np
 
@@ -193,6 +194,35 @@ def conclude(res, pid, proved, batch, failed, errors, direct_bad, theorem_desc):
                       found_input=False)
 
 
+CASE_SECONDS = 30
+
+
+class CaseTooSlow(Exception):
+    pass
+
+
+class time_limit:
+    """wall-clock limit for the set-up of one generated case (main thread only)"""
+
+    def __init__(self, seconds):
+        self.seconds = seconds
+
+    def __enter__(self):
+        import signal
+        self.old = signal.signal(signal.SIGALRM, self._raise)
+        signal.alarm(self.seconds)
+
+    def __exit__(self, *a):
+        import signal
+        signal.alarm(0)
+        signal.signal(signal.SIGALRM, self.old)
+        return False
+
+    @staticmethod
+    def _raise(*a):
+        raise CaseTooSlow()
+
+
 def run_direct(rng, n, fns, known_filter=None, gen_kw=None, res=None):
     """fns: list of (name, fn(case, rng) -> (ok, info)).  Returns (evaluations, bad, known_hits, samples)."""
     gen_kw = gen_kw or {}
@@ -204,15 +234,26 @@ def run_direct(rng, n, fns, known_filter=None, gen_kw=None, res=None):
         case = direct.gen_real_case(rng, cid, **gen_kw)
         # every other case runs with validation switched off (the property does not depend on the flag)
         case['skip_validation'] = bool(cid % 2 == 1)
+        # a chain of one stage is, every other time, that stage used directly instead of inside a KoopmanPipeline
+        case['bare'] = bool(len(case['chain']) == 1 and case['chain'][0][0] != 'pipe' and (cid // 2) % 2 == 0)
+        # the number of inputs as given by a caller who got it from numpy
+        case['n_inputs_form'] = ['int', 'int', 'np.int64', '0-d array'][cid % 4]
         common.note_case('direct', repr(case['chain']), np.ascontiguousarray(case['X'], dtype=float), case['nu'], case['ep'])
         # inputs the estimators themselves reject at fit / plain transform time are not
         # in the property's domain: skipped and counted
         try:
-            kp = direct.build_real_top(case['chain'])
-            case['prefit'] = dp.prefit_history(kp, case)
-            kp.fit_transformers(case.get('Xfit', case['X']), n_inputs=case['nu'], episode_feature=case['ep'])
-            if direct.min_ep_len(case) >= case['w']:
-                kp.transform(case['X'])
+            with time_limit(CASE_SECONDS):
+                kp = direct.build_case_estimator(case)
+                case['prefit'] = dp.prefit_history(kp, case)
+                direct.fit_case_estimator(kp, case, case.get('Xfit', case['X']))
+                if direct.min_ep_len(case) >= case['w']:
+                    kp.transform(case['X'])
+        except CaseTooSlow:
+            # a generated pipeline whose fit alone takes this long on the UNCHANGED code (polynomial of a wide lifted
+            # state) is dropped, and counted; it says nothing about the property
+            known['_skipped_fit_slower_than_%ds' % CASE_SECONDS] = known.get('_skipped_fit_slower_than_%ds' % CASE_SECONDS, 0) + 1
+            print('slow generated case dropped:', case['chain'], case['ns'], case['nu'], file=sys.stderr)
+            continue
         except Exception:  # noqa
             skipped += 1
             continue
@@ -242,6 +283,7 @@ def run_direct(rng, n, fns, known_filter=None, gen_kw=None, res=None):
 
 DIRECT_TESTS = {
     'roundtrip': lambda c, r, kp: direct.c01_roundtrip(c, kp),
+    'roundtrip_helpers': lambda c, r, kp: direct.c01_roundtrip_helpers(c, kp),
     'noninterference': lambda c, r, kp: direct.c02_noninterference(c, r, kp),
     'episodes': lambda c, r, kp: direct.c03_episodes(c, r, kp),
     'dims': lambda c, r, kp: direct.c04_dims(c, kp),
@@ -266,7 +308,8 @@ def replay_direct(path, extra_tests=None):
         return 1
     chain = ast.literal_eval(c['chain'])
     X = dp.present(np.array(c['X'], dtype=float), c.get('array_presentation', 'float'))
-    case = dict(cid=int(c.get('cid', 0)) if c.get('refitted_after_other_layout') else 0, chain=chain, ns=c['n_states'], nu=c['n_inputs'], ep=c['episode_feature'], X=X, Xfit=X,
+    case = dict(bare=bool(c.get('used_directly', False)), n_inputs_form=c.get('n_inputs_given_as', 'int'),
+                cid=int(c.get('cid', 0)) if c.get('refitted_after_other_layout') else 0, chain=chain, ns=c['n_states'], nu=c['n_inputs'], ep=c['episode_feature'], X=X, Xfit=X,
                 mode=c.get('layout'), w=c.get('min_samples'), dims=None)
     if c.get('fit_on_zero_inputs'):
         Xf = np.array(X, copy=True)
@@ -275,9 +318,9 @@ def replay_direct(path, extra_tests=None):
     rng = np.random.default_rng(common.seed())
     direct.ANGLE_MAX[0] = 0.0
     try:
-        kp = direct.build_real_top(chain)
+        kp = direct.build_case_estimator(case)
         dp.prefit_history(kp, case)
-        kp.fit_transformers(case['Xfit'], n_inputs=case['nu'], episode_feature=case['ep'])
+        direct.fit_case_estimator(kp, case, case['Xfit'])
         direct.ANGLE_MAX[0] = 0.0
         with pykoop.config_context(skip_validation=bool(c.get('skip_validation', False))):
             ok, info = tests[c['test']](case, rng, kp)
